@@ -681,3 +681,25 @@ Definition r_mk_VAR (n : string) (T : ty) : thm :=
   mkThm [] (Comb (Const "_VAR" (TFun T BoolT)) (Var n T)).
 
 End Rules.
+
+(* ------------------------------------------------------------------ *)
+(* Well-formed instances of the three primitive logical constants (what
+   theory.check_term enforces against the signature of EmptyTheory; the
+   checker itself never calls check_term on rule arguments). *)
+Definition prim_const_ok (n : string) (T : ty) : bool :=
+  if String.eqb n "equals" then
+    match T with TConst _ (A :: _) => ty_eqb T (TFun A (TFun A BoolT)) | _ => false end
+  else if String.eqb n "implies" then ty_eqb T (TFun BoolT (TFun BoolT BoolT))
+  else if String.eqb n "all" then
+    match T with TConst _ (TConst _ (A :: _) :: _) => ty_eqb T (TFun (TFun A BoolT) BoolT) | _ => false end
+  else true.
+
+Fixpoint wf_consts (t : tm) : bool :=
+  match t with
+  | Const n T => prim_const_ok n T
+  | Comb f a => wf_consts f && wf_consts a
+  | Abs _ _ b => wf_consts b
+  | _ => true
+  end.
+
+Definition wfc_thm (th : thm) : bool := forallb wf_consts (hyps th ++ [prop th]).
